@@ -145,7 +145,8 @@ def writeRequestV4 (r : Request) : Rd Unit := do
     let cid := clientIdV4 r.auth
     if cid.contains 0 then failWith "user id not representable in socks4" else do
     wr cid; wr [0]; wr d; wr [0]
-  | .v4 ip p => do
+  | .v4 ip p =>
+    if ip < 0x100 then failWith "address not representable in socks4" else do
     wr (be16Bytes p); wr (Addr.ip4Octets ip)
     let cid := clientIdV4 r.auth
     if cid.contains 0 then failWith "user id not representable in socks4" else do
